@@ -91,6 +91,15 @@ def arr_of(case: dict) -> np.ndarray:
     return np.array(case["data"], dtype=case["dtype"]).reshape(case["shape"])
 
 
+def laid_out(case: dict, a: np.ndarray) -> np.ndarray:
+    """a private copy of `a` in the memory layout the case asks for: C order, or the logically
+    identical but NON-contiguous array one gets from swapaxes/transpose of a stack stored in
+    another axis order (reshape of such an array copies instead of returning a view)"""
+    if case.get("layout") == "swapped" and a.ndim >= 2 and a.size:
+        return np.ascontiguousarray(np.swapaxes(a, 0, 1)).swapaxes(0, 1)
+    return a.copy()
+
+
 def frames_of(case: dict) -> list[list[int]]:
     """the frames as the model sees them: flat label lists; multiseg: (h,t) pairs, C order"""
     a = arr_of(case)
@@ -171,7 +180,7 @@ def run_real(case: dict):
         from funtracks.utils._segmentation_utils import ensure_unique_labels
 
         a = arr_of(case)
-        out = ensure_unique_labels(a.copy(), multiseg=bool(case.get("multiseg")))
+        out = ensure_unique_labels(laid_out(case, a), multiseg=bool(case.get("multiseg")))
         return canon_flat(out), {"out": out}
     if fn == "bytrack":
         import networkx as nx
@@ -185,10 +194,18 @@ def run_real(case: dict):
             if s is not None:
                 attrs["seg_id"] = s
             g.add_node(nid, **attrs)
-        g.add_edges_from([tuple(e) for e in case["edges"]])
         a = arr_of(case)
+        if case.get("pre_edges") is not None:
+            # the function has been called before on this graph object, with other links
+            g.add_edges_from([tuple(e) for e in case["pre_edges"]])
+            try:
+                relabel_segmentation_with_track_id(g, a.copy())
+            except (KeyError, IndexError):
+                pass
+            g.remove_edges_from(list(g.edges))
+        g.add_edges_from([tuple(e) for e in case["edges"]])
         try:
-            out = relabel_segmentation_with_track_id(g, a.copy())
+            out = relabel_segmentation_with_track_id(g, laid_out(case, a))
         except (KeyError, IndexError):
             return "err", {"out": None}
         return canon_flat(out), {"out": out}
@@ -206,7 +223,7 @@ def run_real(case: dict):
                 g.add_node(n)
         g.add_edges_from([tuple(e) for e in case["edges"]])
         a = arr_of(case)
-        seg = da.from_array(a.copy(), chunks=a.shape) if case.get("dask") and a.size else a.copy()
+        seg = da.from_array(a.copy(), chunks=a.shape) if case.get("dask") and a.size else laid_out(case, a)
         ids = np.array([r[0] for r in case["rows"]], dtype=np.int64)
         sgs = np.array([r[1] for r in case["rows"]], dtype=np.int64)
         tms = np.array([r[2] for r in case["rows"]], dtype=np.int64)
@@ -235,6 +252,26 @@ def run_real(case: dict):
             for ax, c in zip(axes, pos):
                 cols[ax].append(float(c))
         df = pd.DataFrame(cols)
+        if case.get("tif_folder"):
+            # the segmentation given as a PATH: a folder of per-frame TIFFs, frame numbers not
+            # zero-padded (frame_0.tif … frame_11.tif)
+            import shutil
+            import tempfile
+            from pathlib import Path
+
+            import tifffile
+            from funtracks.import_export import CSVTracksBuilder
+            d = Path(tempfile.mkdtemp(prefix="ft_lb_", dir="/tmp"))
+            try:
+                for i in range(a.shape[0]):
+                    tifffile.imwrite(d / f"frame_{i}.tif", a[i])
+                b = CSVTracksBuilder()
+                b.prepare(df)
+                tracks = b.build(df, d)
+                out = np.asarray(tracks.segmentation)
+            finally:
+                shutil.rmtree(d, ignore_errors=True)
+            return canon_seg_graph(out, tracks.graph.nodes, tracks.graph.edges), {"out": out, "graph": tracks.graph}
         tracks = tracks_from_df(df, a.copy())
         out = np.asarray(tracks.segmentation)
         return canon_seg_graph(out, tracks.graph.nodes, tracks.graph.edges), {
@@ -457,15 +494,16 @@ def gen_labels(rng: random.Random, shape: list[int], dtype: str, lead: int,
 
 def gen_ensure_unique(rng: random.Random) -> dict:
     dtype = rng.choice(DTYPES)
+    layout = "swapped" if rng.random() < 0.25 else "C"
     if rng.random() < 0.3:
         shape = gen_shape(rng, allow_t0=False)
         H = rng.randint(1, 3)
         shape = [H] + shape
         lead = H * shape[1]
-        return {"fn": "ensure_unique", "multiseg": True, "shape": shape, "dtype": dtype,
+        return {"fn": "ensure_unique", "multiseg": True, "shape": shape, "dtype": dtype, "layout": layout,
                 "data": gen_labels(rng, shape, dtype, lead)}
     shape = gen_shape(rng)
-    return {"fn": "ensure_unique", "multiseg": False, "shape": shape, "dtype": dtype,
+    return {"fn": "ensure_unique", "multiseg": False, "shape": shape, "dtype": dtype, "layout": layout,
             "data": gen_labels(rng, shape, dtype, shape[0])}
 
 
@@ -551,6 +589,11 @@ def gen_bytrack(rng: random.Random, illformed: bool = False) -> dict:
     rng.shuffle(nodes)
     edges = gen_forest(rng, [(n[0], n[1]) for n in nodes], maxdeg=rng.choice([2, 2, 2, 3]))
     case = dict(base, nodes=nodes, edges=edges)
+    if not illformed and rng.random() < 0.25:
+        # the function was called before on the SAME graph object, when it had other links
+        case["pre_edges"] = gen_forest(rng, [(n[0], n[1]) for n in nodes], maxdeg=2)
+    if rng.random() < 0.15:
+        case["layout"] = "swapped"
     if illformed and nodes:
         kind = rng.choice(["shared", "nokey", "badtime", "merge"])
         case["illformed"] = kind
@@ -574,9 +617,14 @@ def gen_bytrack(rng: random.Random, illformed: bool = False) -> dict:
 def gen_relabel(rng: random.Random, public: bool, illformed: bool = False) -> dict:
     dtype = rng.choice(DTYPES)
     shape = gen_shape(rng, allow_t0=not public)
+    tif = False
     if public:
         # regionprops on the imported tracks wants real 2-D / 3-D frames
         shape = [max(1, shape[0])] + [max(2, s) for s in shape[1:]]
+        if rng.random() < 0.08 and dtype != "uint64":
+            # the segmentation given as a folder of per-frame TIFFs: more than ten frames
+            tif = True
+            shape = [rng.randint(11, 13), 2, rng.randint(2, 3)]
     base = {"fn": "import" if public else "relabel", "shape": shape, "dtype": dtype,
             "data": gen_labels(rng, shape, dtype, shape[0], small_only=public)}
     dets = detections(base)
@@ -639,6 +687,16 @@ def gen_relabel(rng: random.Random, public: bool, illformed: bool = False) -> di
         off = 256 if dtype == "uint8" else 65536
         ids = [i + off if i else i for i in ids]
     rows = [[i, s, t] for i, (t, s) in zip(ids, listed)]
+    if dtype in ("uint8", "uint16") and shape[0] and not illformed and not public and rng.random() < 0.2:
+        # a node whose seg id does NOT fit the label image's dtype (a stale, too-large label): it
+        # matches no pixel — also when the value wrapped into the dtype is a label of its frame
+        wrap = 256 if dtype == "uint8" else 65536
+        t_ = rng.randrange(shape[0])
+        present = sorted({d[1] for d in dets if d[0] == t_})
+        sg = wrap * rng.randint(1, 2) + (rng.choice(present) if present and rng.random() < 0.8 else rng.randint(1, 5))
+        nid = max([r[0] for r in rows] + [0]) + rng.randint(1, 5)
+        if (t_, sg) not in [(r[2], r[1]) for r in rows]:
+            rows.append([nid, sg, t_])
     rng.shuffle(rows)
     edges = gen_forest(rng, [(r[0], r[2]) for r in rows])
     gnodes = [r[0] for r in rows]
@@ -650,6 +708,10 @@ def gen_relabel(rng: random.Random, public: bool, illformed: bool = False) -> di
                 gnodes.append(extra)
     case = dict(base, rows=rows, gnodes=gnodes, edges=edges, mode=mode,
                 dask=rng.random() < 0.3)
+    if tif:
+        case["tif_folder"] = True
+    if not public and rng.random() < 0.15:
+        case["layout"] = "swapped"
     if illformed and rows and not public:
         kind = rng.choice(["dup", "badtime"])
         case["illformed"] = kind
@@ -875,6 +937,9 @@ def _shard(args) -> Result:
         res.count(f"ndim:{len(case['shape'])}")
         res.count(f"frames:{case['shape'][1] if case.get('multiseg') else case['shape'][0]}")
         res.count(f"dtype:{case['dtype']}")
+        for tag in ("layout", "tif_folder", "pre_edges"):
+            if case.get(tag) not in (None, "C", False):
+                res.count(f"variant:{tag}")
         if case.get("illformed"):
             res.count(f"illformed:{case['fn']}:{case['illformed']}")
         if "mode" in case:
